@@ -92,13 +92,23 @@ def harness_sources(crate):
     return res
 
 
+def rf_env(rustflags):
+    """Environment and target-dir suffix for a build with extra RUSTFLAGS (own target dir: the flags change every artifact)."""
+    if not rustflags:
+        return None, ""
+    env = dict(ENV)
+    env["RUSTFLAGS"] = rustflags
+    return env, "-rf" + hashlib.sha1(rustflags.encode()).hexdigest()[:6]
+
+
 def run_kani(crate, harnesses, cbmc_args=(), kani_args=(), jobs=None, harness_timeout=600, mem_gb=14,
-             tag="run", features=None):
+             tag="run", features=None, rustflags=None):
     """Run the given harnesses (full paths, exact) in one cargo-kani invocation.
     Returns (results: {harness: dict}, meta)."""
     prepare_crate(crate)
     d = crate_dir(crate)
-    tdir = os.path.join(WORK, "target-" + crate)
+    env, suffix = rf_env(rustflags)
+    tdir = os.path.join(WORK, "target-" + crate + suffix)
     os.makedirs(tdir, exist_ok=True)
     logdir = os.path.join(WORK, "logs")
     os.makedirs(logdir, exist_ok=True)
@@ -120,8 +130,8 @@ def run_kani(crate, harnesses, cbmc_args=(), kani_args=(), jobs=None, harness_ti
     # wall cap: build + ceil(n/jobs) rounds of harness_timeout, generous
     rounds = (len(harnesses) + jobs - 1) // jobs
     wall = 900 + rounds * (harness_timeout + 30)
-    rc, out, secs = sh(cmd, cwd=d, timeout=wall, mem_gb=mem_gb, out_path=lpath)
-    meta = {"cmd": " ".join(cmd), "rc": rc, "wall_s": round(secs, 2), "log": lpath}
+    rc, out, secs = sh(cmd, cwd=d, timeout=wall, mem_gb=mem_gb, out_path=lpath, env=env)
+    meta = {"cmd": (("RUSTFLAGS='%s' " % rustflags) if rustflags else "") + " ".join(cmd), "rc": rc, "wall_s": round(secs, 2), "log": lpath}
     results = {}
     if "error: could not compile" in out or "error[E" in out:
         meta["build_error"] = "\n".join(l for l in out.splitlines() if l.startswith("error"))[:2000]
@@ -200,10 +210,11 @@ def classify(res):
 # Replay
 # --------------------------------------------------------------------------------------------
 
-def concrete_playback(crate, harness, cbmc_args=(), features=None, timeout=900, mem_gb=14, kani_args=()):
+def concrete_playback(crate, harness, cbmc_args=(), features=None, timeout=900, mem_gb=14, kani_args=(), rustflags=None):
     """Ask Kani for concrete values of a failing harness; returns list of (check, [[bytes]...])."""
     d = crate_dir(crate)
-    tdir = os.path.join(WORK, "target-" + crate)
+    env, suffix = rf_env(rustflags)
+    tdir = os.path.join(WORK, "target-" + crate + suffix)
     cmd = ["cargo", "kani", "--lib", "--target-dir", tdir, "--exact", "--harness", harness,
            "-Z", "concrete-playback", "--concrete-playback=print", "-Z", "unstable-options"]
     if features:
@@ -211,7 +222,7 @@ def concrete_playback(crate, harness, cbmc_args=(), features=None, timeout=900, 
     cmd += list(kani_args)
     if cbmc_args:
         cmd += ["--cbmc-args"] + list(cbmc_args)
-    rc, out, _ = sh(cmd, cwd=d, timeout=timeout, mem_gb=mem_gb,
+    rc, out, _ = sh(cmd, cwd=d, timeout=timeout, mem_gb=mem_gb, env=env,
                     out_path=os.path.join(WORK, "logs", "playback-%s.log" % harness.replace("::", "_")))
     tests = []
     for m in re.finditer(r"/// Check for `([^`]*)`: (.*?)\n.*?let concrete_vals: Vec<Vec<u8>> = vec!\[(.*?)\n\s*\];",
@@ -248,7 +259,7 @@ def synthetic_inputs(n_calls=160):
     return out
 
 
-def native_replay(crate, harness, bytes_list, features=None, profiles=("dev", "release", "miri")):
+def native_replay(crate, harness, bytes_list, features=None, profiles=("dev", "release", "miri"), rustflags=None):
     """Run the same harness body natively with the recorded values.
     Returns (reproduced: bool, how: str, detail)."""
     d = crate_dir(crate)
@@ -262,6 +273,19 @@ def native_replay(crate, harness, bytes_list, features=None, profiles=("dev", "r
     tdir = os.path.join(WORK, "target-%s-native" % crate)
     attempts = []
     feat = ["--features", features] if features else []
+    if rustflags:
+        # a group built with extra (nightly-only) RUSTFLAGS, e.g. a randomized repr(Rust) layout: replay with the nightly
+        # toolchain and the same flags; its shuffle need not coincide with the Kani toolchain's for the same seed, so a few
+        # other seeds are tried as well
+        variants = [rustflags] + [re.sub(r"layout-seed=\d+", "layout-seed=%d" % k, rustflags) for k in (1, 2, 3, 4, 5)]
+        for rfv in variants:
+            env, suffix = rf_env(rfv)
+            cmd = ["cargo", "+nightly", "run", "--offline", "--quiet", "--bin", "replay", "--target-dir", tdir + "-rf"] + feat + ["--", name, bpath]
+            rc, out, _ = sh(cmd, cwd=d, timeout=900, env=env)
+            attempts.append({"profile": "nightly dev, RUSTFLAGS=" + rfv, "rc": rc, "tail": out[-600:]})
+            if rc != 0 and rc not in (3, 4) and "could not compile" not in out:
+                return True, "nightly dev, RUSTFLAGS=" + rfv, attempts
+        return False, "none", attempts
     for prof, extra in (("dev", []), ("release", ["--release"])):
         if prof not in profiles:
             continue
@@ -359,7 +383,8 @@ def check_kani_property(prop, spec, tier):
             continue
         res, meta = run_kani(g.get("crate", crate), hs, cbmc_args=g.get("cbmc_args", ()), kani_args=g.get("kani_args", ()),
                              jobs=g.get("jobs"), harness_timeout=g.get("timeout", 600),
-                             mem_gb=g.get("mem_gb", 14), tag="%s-%s" % (prop, g["id"]), features=features)
+                             mem_gb=g.get("mem_gb", 14), tag="%s-%s" % (prop, g["id"]), features=features,
+                             rustflags=g.get("rustflags"))
         meta["group"] = g["id"]
         meta["cbmc_args"] = list(g.get("cbmc_args", ()))
         metas.append(meta)
@@ -478,7 +503,8 @@ def check_kani_property(prop, spec, tier):
             # (trace generation needs more memory and time than the verdict did) is repeated ONCE with 40 GB / 50 min
             big = _attempt > 0 and getattr(concrete_playback, "last_crashed", False)
             tests = concrete_playback(gcrate, h, cbmc_args=g.get("cbmc_args", ()), features=features,
-                                      timeout=3000 if big else 900, mem_gb=40 if big else 14, kani_args=g.get("kani_args", ()))
+                                      timeout=3000 if big else 900, mem_gb=40 if big else 14, kani_args=g.get("kani_args", ()),
+                                      rustflags=g.get("rustflags"))
             if [t for t in tests if not t["is_cover"]]:
                 break
             if big:
@@ -489,14 +515,14 @@ def check_kani_property(prop, spec, tier):
         attempts_all = []
         # pass 1: plain dev-profile run of every candidate; pass 2: release + Miri for the counterexamples proper
         for t in tests[:8]:
-            ok, how, attempts = native_replay(gcrate, h, t["bytes"], features=features, profiles=("dev",))
+            ok, how, attempts = native_replay(gcrate, h, t["bytes"], features=features, profiles=("dev",), rustflags=g.get("rustflags"))
             attempts_all.append({"check": t["check"], "attempts": attempts})
             if ok:
                 reproduced, chosen = True, t
                 break
         if not reproduced:
             for t in [t for t in tests if not t["is_cover"]][:2] or tests[:1]:
-                ok, how, attempts = native_replay(gcrate, h, t["bytes"], features=features, profiles=("release", "miri"))
+                ok, how, attempts = native_replay(gcrate, h, t["bytes"], features=features, profiles=("release", "miri"), rustflags=g.get("rustflags"))
                 attempts_all.append({"check": t["check"], "attempts": attempts})
                 if ok:
                     reproduced, chosen = True, t
@@ -509,7 +535,7 @@ def check_kani_property(prop, spec, tier):
             # (same assertion text or source line) the solver reported.
             wanted = [f for f in r["failed"] if f["cat"] not in INCONCLUSIVE_CATS] or r["failed"]
             for cand in synthetic_inputs():
-                ok, how2, attempts = native_replay(gcrate, h, cand, features=features, profiles=("dev",))
+                ok, how2, attempts = native_replay(gcrate, h, cand, features=features, profiles=("dev",), rustflags=g.get("rustflags"))
                 if not ok:
                     continue
                 tail = attempts[-1]["tail"]
@@ -528,7 +554,7 @@ def check_kani_property(prop, spec, tier):
         hh = hashlib.sha1((h + json.dumps(r["failed"], sort_keys=True)).encode()).hexdigest()[:10]
         rpath = os.path.join(rdir, "%s-%s-%s.json" % (prop, h.split("::")[-1], hh))
         with open(rpath, "w") as f:
-            json.dump({"property": prop, "crate": gcrate, "features": features, "harness": h,
+            json.dump({"property": prop, "crate": gcrate, "features": features, "harness": h, "rustflags": g.get("rustflags"),
                        "failed_checks": r["failed"], "bytes": (chosen or (tests[0] if tests else {"bytes": []}))["bytes"],
                        "all_tests": tests, "reproduced": reproduced, "reproduced_in": how, "attempts": attempts_all,
                        "repo": repo_state()}, f, indent=1)
@@ -619,7 +645,7 @@ def replay_file(path):
     if d.get("engine") and d["engine"] != "kani":
         import props
         return props.replay_other(d)
-    ok, how, attempts = native_replay(d["crate"], d["harness"], d["bytes"], features=d.get("features"))
+    ok, how, attempts = native_replay(d["crate"], d["harness"], d["bytes"], features=d.get("features"), rustflags=d.get("rustflags"))
     log(json.dumps(attempts, indent=1))
     if ok:
         log("replay: reproduced in %s" % how)
